@@ -34,7 +34,8 @@ type C05Op struct {
 	Keep    bool      `json:"keep,omitempty"`  // crash: keep the LMDB (true) or restart with an emptied one
 	Changes []SChange `json:"changes,omitempty"`
 	DtNs    int64     `json:"dt_ns,omitempty"`
-	FKind   string    `json:"fkind,omitempty"` // fault: list | load | store | delete
+	FKind   string    `json:"fkind,omitempty"` // fault: list | load | store | delete | load-own | load-of (names containing Match)
+	Match   string    `json:"match,omitempty"`
 	Faults  []string  `json:"faults,omitempty"`
 	// Held (app): the transaction stays open - holding the LMDB write lock - until the instance's loop is
 	// stepped next, and commits 2 ms after the loop was let go
@@ -481,6 +482,8 @@ func (f *c05Fleet) exec(oi int, op C05Op) error {
 	case "fault":
 		if op.FKind == "load-own" {
 			nd.H.SetPlanFor("load", "__"+nd.Name+"__", op.Faults)
+		} else if op.FKind == "load-of" {
+			nd.H.SetPlanFor("load", op.Match, op.Faults)
 		} else {
 			nd.H.SetPlan(op.FKind, op.Faults)
 		}
@@ -788,6 +791,63 @@ func TestC05CleanerEnum(t *testing.T) {
 			)
 			err := checkC05(c, o)
 			o.NonTrivial(strings.HasPrefix(e.Point, "send."))
+			return err
+		})
+}
+
+// ---- FAULT_ENUM: a stale instance's NEWEST snapshot was never merged (only its predecessor was, later) ----
+
+type enumC05Stale struct {
+	Native bool   `json:"native"`
+	APoint string `json:"a_point"` // where A's loop stands while B publishes twice
+	Upload bool   `json:"upload"`  // A gets a local change and uploads after the merge
+}
+
+func TestC05StaleEnum(t *testing.T) {
+	vcore.RunEnum(t, vcore.Config{Property: "C05", Inflight: true,
+		Rule: "fault enumeration: B publishes S1 (only copy of k1); A's receiver downloads it while A's loop stands at {sync.before-next, sync.before-sleep, sync.before-info}; B publishes S2 (only copy of k2), whose download by A fails from then on, and goes silent; A merges S1 - later than S2 was made -, {gets a local change and uploads, or not}; A's cleaner runs 8 days later (B is stale, keep interval 0): S2 was never merged by A, so k2 must still be in the bucket; invariants after every bucket mutation; non-trivial = A uploaded after the merge"},
+		func(yield func(enumC05Stale) bool) {
+			for _, native := range []bool{true, false} {
+				for _, p := range []string{"sync.before-next", "sync.before-sleep", "sync.before-info"} {
+					for _, up := range []bool{true, false} {
+						if !yield(enumC05Stale{Native: native, APoint: p, Upload: up}) {
+							return
+						}
+					}
+				}
+			}
+		},
+		func(e enumC05Stale, o *vcore.Obs) error {
+			c := C05Case{Native: e.Native, N: 2, MustKeep: 0, RemoveOld: int64(time.Hour)}
+			put := func(k int, v string) []SChange { return []SChange{{DBI: 0, Key: k, Op: "put", Val: model.Bytes(v)}} }
+			fails := make([]string, 200000)
+			for i := range fails {
+				fails[i] = fault.Fail
+			}
+			c.Ops = []C05Op{
+				{Kind: "step", Inst: 0, Steps: 12, Until: e.APoint},
+				{Kind: "app", Inst: 1, Changes: put(1, "only-in-S1")},
+				{Kind: "step", Inst: 1, Steps: 40, Until: "sync.before-sleep"},
+				{Kind: "settle"}, {Kind: "settle"}, {Kind: "settle"}, // A's receiver lists and downloads S1
+				{Kind: "fault", Inst: 0, FKind: "load-of", Match: "__i1__", Faults: fails},
+				{Kind: "app", Inst: 1, Changes: put(2, "only-in-S2")},
+				{Kind: "step", Inst: 1, Steps: 40, Until: "sync.before-sleep"},
+				{Kind: "settle"}, {Kind: "settle"},
+				{Kind: "step", Inst: 0, Steps: 30, Until: "sync.after-load"}, // A merges S1 now
+				{Kind: "clean", Inst: 0, DtNs: 0},
+			}
+			if e.Upload {
+				c.Ops = append(c.Ops, C05Op{Kind: "app", Inst: 0, Changes: put(0, "local-change-on-A")})
+			}
+			c.Ops = append(c.Ops,
+				C05Op{Kind: "step", Inst: 0, Steps: 40, Until: "sync.before-sleep"},
+				C05Op{Kind: "step", Inst: 0, Steps: 40, Until: "sync.before-sleep"},
+				C05Op{Kind: "clean", Inst: 0, DtNs: int64(8 * 24 * time.Hour)},
+				C05Op{Kind: "step", Inst: 0, Steps: 20},
+				C05Op{Kind: "clean", Inst: 0, DtNs: int64(8 * 24 * time.Hour)},
+			)
+			err := checkC05(c, o)
+			o.NonTrivial(e.Upload)
 			return err
 		})
 }
